@@ -10,6 +10,11 @@ each through the PUBLIC orangeinp API into OrangeParams and reports the volume o
 half-lattice probe point; TLC (spec/SolidsTrace.tla) recomputes the expected volume and
 names the violated clause.  A second family perturbs parameters by 0.5 and 2 effective
 tolerances (soft de-duplication).  spec/SolidsMC.tla is the design check of the vocabulary.
+Directed families, every run: generalised-prism gallery; De Morgan spellings (unions written as negated
+intersections, negated operands first, double negations); replicas (one solid -- incl. spheroids and hollow
+polycones whose cavity tapers to a point -- at places differing in one coordinate, mirror images, permutations:
+what the soft de-duplication must keep apart); oracle-decided: regular prisms, parallelepipeds and general
+trapezoids (GenPrism::from_trap), the latter also one at a time under a dense probe grid.
 """
 import concurrent.futures as cf
 import json
@@ -45,10 +50,16 @@ def run(ctx):
     # twisted; 3-6 sides; both vertex windings (56 prisms per seed; thorough: three seeds)
     for k in range(1 if q else 3):
         scenes += solids.genprism_gallery(ctx.seed + k, len(scenes), 7 if small else 9)
+    # De Morgan spellings (negations first, unions written as negated intersections, double negations) and replicas
+    # (one solid at places differing in a single coordinate / mirror images / permutations), EVERY run
+    scenes += solids.demorgan_gallery(ctx.seed, len(scenes), 7 if small else 9)
+    scenes += solids.replica_gallery(ctx.seed, len(scenes), 7 if small else 9)
     # oracle-decided family (outside the lattice vocabulary; expectation computed by the harness)
     for i in range(noracle):
         s = solids.oracle_scene(ctx.seed * 31 + i, len(scenes), ngrid)
         scenes.append(s)
+    for i in range(max(4, noracle // 2)):     # general trapezoids (GenPrism::from_trap) one at a time, densely probed
+        scenes.append(solids.oracle_scene(ctx.seed * 37 + 1000 + i, len(scenes), ngrid, traps_only=True))
     if not q:
         solids.sample_slabs(scenes, 9, ctx.seed)
     by_id = {s["id"]: s for s in scenes}
@@ -173,7 +184,10 @@ def run(ctx):
                 "definitions (every scene has at least one non-background volume); compared = probes neither in an "
                 "input overlap nor uncovered; a disagreeing probe is excused only if NearInScene (exact) holds",
         "scenes": len(scenes), "scenes_by_family": fams, "failed_builds": total.get("failed_builds", 0),
-        "per_primitive": {k: v for k, v in sorted(kinds.items()) if not k.startswith(("op:", "boundary:", "gallery:"))},
+        "per_primitive": {k: v for k, v in sorted(kinds.items())
+                          if not k.startswith(("op:", "boundary:", "gallery:", "spell:", "replica:"))},
+        "spellings": {k[6:]: v for k, v in sorted(kinds.items()) if k.startswith("spell:")},
+        "replicas": {k[8:]: v for k, v in sorted(kinds.items()) if k.startswith("replica:")},
         "genprism_gallery": {k[8:]: v for k, v in sorted(kinds.items()) if k.startswith("gallery:")},
         "per_operator": {k[3:]: v for k, v in sorted(kinds.items()) if k.startswith("op:")},
         "per_boundary": {k[9:]: v for k, v in sorted(kinds.items()) if k.startswith("boundary:")},
@@ -188,7 +202,8 @@ def run(ctx):
                            "disagreements": total.get("oracle_bad", 0),
                            "named_deviation_hits": {"ParallelepipedAlphaYExtent": total.get("oracle_deviation", 0),
                                                     "ParallelepipedBBoxTooSmall": total.get("oracle_deviation_bbox", 0)},
-                           "what": "regular prisms n=3..8 with any orientation, parallelepipeds, general rotations: "
+                           "what": "regular prisms n=3..8 with any orientation, parallelepipeds, general trapezoids built "
+                                   "with GenPrism::from_trap (right / oblique / sheared / twisted), general rotations: "
                                    "analytic membership functions in harness/vbuild.cc (documented definitions), facts in the trace"},
         "traces_validated_against_impl": len(jobs),
         "design_check": "SolidsMC (%s): %d distinct states, %d transitions; invariants DeMorgan Subtraction "
@@ -206,5 +221,6 @@ def run(ctx):
         "oracle-decided (labelled): regular prisms with n != 4 or rotated, parallelepipeds and general rotations are "
         "compared with analytic membership functions written in the harness from the documented definitions; "
         "TLC only compares the two labels",
-        "not checked: involutes, rectangular arrays, twisted prisms under general rotations",
+        "not checked: involutes, rectangular arrays, twisted prisms under general rotations; unions with a negated "
+        "operand are not generated (BoundingZone::calc_union is unsound there: extension check X06, F-BZ-2 / F-BZ-2u)",
     ]
